@@ -188,15 +188,15 @@ TI_VAR_POISON = [
 def poison_sites(K):
     sites = []
     for sec, f, bads in TI_POISON:
-        for b in bads:
+        for b in pools.with_generic(bads):
             sites.append({"kind": "sec", "sec": sec, "field": f, "bad": b, "good": K[sec][f]})
     if K["release"]["is_layered"]:
         for sec, f, bads in TI_BP_POISON:
-            for b in bads:
+            for b in pools.with_generic(bads):
                 sites.append({"kind": "sec", "sec": sec, "field": f, "bad": b, "good": K[sec][f]})
     for v in K["vars"]:
         for f, bads in TI_VAR_POISON:
-            for b in bads:
+            for b in pools.with_generic(bads):
                 sites.append({"kind": "var", "var": v["n"], "field": f, "bad": b, "good": v[f]})
         if v["parent"] is not None:
             sites.append({"kind": "var", "var": v["n"], "field": "uid", "bad": "Else-" + v["id"], "good": v["uid"]})
@@ -210,7 +210,7 @@ def poison_sites(K):
         sites.append({"kind": "stage2", "field": "mainimage", "bad": "/abs/install.img", "good": None})
     sites.append({"kind": "checksum-abs", "path": "/abs/file", "ctype": "sha256", "value": "0" * 64})
     for f in ("discnum", "totaldiscs"):
-        for b in ["1", 1.5, "", 0.0, []]:
+        for b in pools.with_generic(["1"]):
             sites.append({"kind": "media", "field": f, "bad": b, "good": K["media"]})
     return sites
 
@@ -264,4 +264,4 @@ DI_POISON = [
 
 
 def di_poison_sites(K):
-    return [{"field": f, "bad": b, "good": K[f]} for f, bads in DI_POISON for b in bads if not isinstance(b, tuple)]
+    return [{"field": f, "bad": b, "good": K[f]} for f, bads in DI_POISON for b in pools.with_generic([x for x in bads if not isinstance(x, tuple)])]
